@@ -228,9 +228,34 @@ TARGETS = [f"{SCOPE}.check_use", f"{PARSER}.check_file", f"{SCOPE}.mark_contains
            "fortls.parsers.internal.module.Module.check_valid_parent"]
 
 
+def scope_local_items(repo):
+    """A scope's diagnostics are a function of that scope and the index only: the accessibility verdicts that
+    Variable.check_definition caches in `known_types` depend on the scope, so the cache must start empty in every
+    check_definitions call and must not be handed from one scope to the next."""
+    items = []
+    fi = repo.func(f"{SCOPE}.check_definitions")
+    args = [a.arg for a in fi.node.args.args] + [a.arg for a in fi.node.args.kwonlyargs]
+    fresh = any(isinstance(n, (ast.Assign, ast.AnnAssign)) and ast.unparse(n.targets[0] if isinstance(n, ast.Assign) else n.target) == "known_types"
+                and ast.unparse(n.value) == "{}" for n in fi.node.body)
+    stores = [n for n in ast.walk(fi.node) if isinstance(n, ast.Attribute) and isinstance(n.ctx, ast.Store) and "known_types" in ast.unparse(n)]
+    ok = args == ["self", "obj_tree"] and fresh and not stores
+    items.append(Item("C07/Scope.check_definitions/frame.verdict_cache_is_per_scope", "proved" if ok else "refuted", "structural", 0.0,
+                      where=fi.where(), mode="table", func=fi.qualname,
+                      detail="check_definitions(self, obj_tree) starts from an empty known_types and keeps it local",
+                      witness=None if ok else {"parameters": args, "starts_empty": fresh}))
+    fa = repo.func("fortls.parsers.internal.ast.FortranAST.check_file")
+    calls = [ast.unparse(n) for n in ast.walk(fa.node) if isinstance(n, ast.Call) and ast.unparse(n.func).endswith(".check_definitions")]
+    ok = calls == ["scope.check_definitions(obj_tree)"]
+    items.append(Item("C07/FortranAST.check_file/frame.scopes_checked_independently", "proved" if ok else "refuted", "structural", 0.0,
+                      where=fa.where(), mode="table", func=fa.qualname,
+                      detail="every scope is checked by check_definitions(obj_tree) alone: nothing computed for one scope is passed to another",
+                      witness=None if ok else {"calls": calls}))
+    return items
+
+
 def extra(repo, reg, tier, seed):
     from contracts import c07_gen
-    items = []
+    items = scope_local_items(repo)
     w, nv, nd, per = c07_gen.run(tier, seed)
     it = Item("C07/session/generated_defect_oracle", "refuted" if w else "bounded-ok", "native-run(bounded)", 0.0, mode="bounded",
               witness=w, confirmed=True if w else None, func=f"{SCOPE}.check_definitions",
